@@ -53,6 +53,12 @@ def Pred.anchor : Pred → Option Time
 
 def ascii (s : String) : Bytes := s.toUTF8.toList
 
+/-- "immutable", "true", "false" as bytes (literal lists so that the kernel can compute with them;
+    the `values/uuid` correspondence hashes the model's pre-images and compares with Go's UUIDs). -/
+def immutableBytes : Bytes := [105, 109, 109, 117, 116, 97, 98, 108, 101]
+def trueBytes : Bytes := [116, 114, 117, 101]
+def falseBytes : Bytes := [102, 97, 108, 115, 101]
+
 /-- `uint64` → base-128 little-endian with continuation bits (`binary.PutUvarint`). Fuel 10 suffices
     for 64-bit values. -/
 def uvarint : Nat → Nat → Bytes
@@ -79,15 +85,15 @@ def prePredPartial (p : Pred) : Bytes := p.id
 
 /-- `Predicate.UUID`: id ++ "immutable", or id ++ a 16-byte buffer holding `PutVarint(UnixNano())`. -/
 def prePred : Pred → Bytes
-  | .imm i => i ++ ascii "immutable"
+  | .imm i => i ++ immutableBytes
   | .tmp i t => i ++ padTo 16 (varint (toInt64 t.nanos))
 
 /-- `Literal.UUID` payloads: no type tag. The int64 case writes the varint into an 8-byte buffer
     (`quirkIntBuf8 = true`: the Go code before the D03 fix panics when the varint needs 9–10 bytes);
     after the fix the buffer is as long as needed, at least 8. -/
 def preLit (quirkIntBuf8 : Bool) : Lit → Option Bytes
-  | .bool true => some (ascii "true")
-  | .bool false => some (ascii "false")
+  | .bool true => some trueBytes
+  | .bool false => some falseBytes
   | .int i =>
     let v := varint i
     if quirkIntBuf8 && v.length > 8 then none else some (padTo 8 v)
@@ -110,5 +116,39 @@ def Triple.view (q : Bool) (t : Triple) (id : Nat) (pstr str sstr ostr : Bytes) 
         | .pred p => some (p.id, p.anchor.map (·.nanos))
         | _ => none,
       pstr := pstr, str := str, sstr := sstr, ostr := ostr }
+
+/-! ### Value identity (specification side): injective encodings, independent of the UUID scheme -/
+
+def natBytes (n : Nat) : Bytes := (toString n).toUTF8.toList ++ [58]
+def intBytes (i : Int) : Bytes := (toString i).toUTF8.toList ++ [58]
+def lp (b : Bytes) : Bytes := natBytes b.length ++ b
+
+def idNode (n : Node) : Bytes := lp n.ty ++ lp n.id
+
+def idLit : Lit → Bytes
+  | .bool b => [98, if b then 1 else 0]
+  | .int i => 105 :: intBytes i
+  | .float bits => 102 :: natBytes bits
+  | .text s => 116 :: lp s
+  | .blob b => 120 :: lp b
+
+def idPredFull : Pred → Bytes
+  | .imm i => 73 :: lp i
+  | .tmp i t => 84 :: lp i ++ intBytes t.nanos
+
+def idObj : Obj → Bytes
+  | .node n => 78 :: idNode n
+  | .pred p => 80 :: idPredFull p
+  | .lit l => 76 :: idLit l
+
+/-- The specification's view of a triple: identity is "same kind and equal components, anchors as
+    instants" — not the UUID pre-image. (The predicate instant is kept unwrapped by shifting it into
+    the identifier part of the key.) -/
+def Triple.viewSpec (t : Triple) (id : Nat) (pstr str sstr ostr : Bytes) : TView :=
+  { id := id, ks := idNode t.s, pid := t.p.id, pnano := t.p.anchor.map (·.nanos), ko := idObj t.o,
+    opred := match t.o with
+      | .pred p => some (p.id, p.anchor.map (·.nanos))
+      | _ => none,
+    pstr := pstr, str := str, sstr := sstr, ostr := ostr }
 
 end BW.Model
